@@ -162,13 +162,31 @@ Probes(m) ==
           s \in {<<"t1", "g5">>, <<"t1", "x2">>}}
   \cup {Pr(x, m, "typecycles", "in-and-out", "", Typed(Tx(<<In("t1", NoSince)>>, <<>>, <<>>), "ok"))}
 
+(* Staged probes (WClose = 2 only: the code's Proposed position is exact for that window): after the context, block       *)
+(* NBlocks+1 PROPOSES the probes' ids and block NBlocks+2 is empty.  At tip NBlocks+1 the ids are in the gap (earliest       *)
+(* commit NBlocks+1+WClose), at tip NBlocks+2 they are proposed (earliest commit NBlocks+3).  Number-based since values     *)
+(* around the two positions; the ledger is the context's (the two extra blocks commit nothing).                              *)
+StagedProbes ==
+  LET x == Ledger(NBlocks)
+      g == PoolEnvGap(NBlocks + 1)
+      q == PoolEnvProposed(NBlocks + 2)
+      SP(stage, lab, env, s) ==
+        LET tx == Tx(<<In("g5", s)>>, <<>>, <<>>)
+        IN [stage |-> stage, lab |-> lab, tx |-> tx, pv |-> Verdict(x, NoOv, env, tx), prules |-> Must(x, NoOv, env, tx)]
+  IN IF WClose # 2 THEN {}
+     ELSE {SP("gap", "abs", g, Since("n", FALSE, V1(v))) : v \in {g.number - 1, g.number, g.number + 1}}
+     \cup {SP("gap", "rel", g, Since("n", TRUE, V1(v))) : v \in {g.number - 1, g.number, g.number + 1}}
+     \cup {SP("proposed", "abs", q, Since("n", FALSE, V1(v))) : v \in {q.number - 1, q.number, q.number + 1}}
+     \cup {SP("proposed", "rel", q, Since("n", TRUE, V1(v))) : v \in {q.number - 1, q.number, q.number + 1}}
+
 AsSeq(s) == SetToSeq(s)
 CtxRecord ==
   [ params |-> [L |-> L, wclose |-> WClose, wfar |-> WFar, K |-> K, maturity |-> Maturity, maxcycles |-> MaxCycles,
                 groupcycles |-> GroupCycles, rfc0028 |-> Rfc0028],
     ts |-> ts,
     sched |-> [i \in 1..Len(Names) |-> [name |-> Names[i], h |-> sched[Names[i]]]],
-    probes |-> [i \in 1..(NBlocks + 1) |-> AsSeq(Probes(i - 1))] ]
+    probes |-> [i \in 1..(NBlocks + 1) |-> AsSeq(Probes(i - 1))],
+    staged |-> AsSeq(StagedProbes) ]
 EmitCtx == (Emit /\ pc = "done") => PrintT(<<"CTX", ToJson(CtxRecord)>>)
 
 -----------------------------------------------------------------------------
